@@ -240,6 +240,10 @@ func buildIntrinsics() map[string]intrinsic {
 		}
 		return a[1]
 	}
+	t[apiPkg+".AdvanceClock"] = func(m *Machine, fr *frame, a []Value) Value {
+		m.advanceClock(m.goString(a[0], "AdvanceClock"), m.concInt(a[1], "AdvanceClock max"))
+		return nil
+	}
 	t[apiPkg+".Symbolic"] = func(m *Machine, fr *frame, a []Value) Value { return m.ctx.True }
 	t[apiPkg+".Now"] = func(m *Machine, fr *frame, a []Value) Value { return m.timeNow() }
 	t[apiPkg+".load"] = func(m *Machine, fr *frame, a []Value) Value { return nil }
